@@ -371,9 +371,10 @@ the nested ones it rejects as a misuse and a sixteenth of the nested ill-sorted 
 quick: every one-operator program that the model accepts or rejects as a misuse; one program (chosen
 by the seed) from every other stratum (depth, operator, verdict class, operand kinds), except that only
 a quarter of the nested ill-sorted strata are visited per seed. -/
-def select (thorough : Bool) (seed : Nat) : List Prog :=
+def select (thorough : Bool) (seed : Nat) (all : Bool := false) : List Prog :=
   let ps := allProgs ()
-  if thorough then
+  if all then ps
+  else if thorough then
     ps.filter fun p =>
       p.e.depth ≤ 2 ||
       (match p.v with
@@ -455,7 +456,7 @@ def emit (args : List String) : IO UInt32 := do
   let thorough := args.getD 0 "quick" == "thorough"
   let seed := (args.getD 1 "1").toNat?.getD 1
   let out ← IO.getStdout
-  for p in select thorough seed do
+  for p in select thorough seed (args.getD 0 "quick" == "all") do
     out.putStrLn (progLine p)
   return 0
 
